@@ -410,7 +410,7 @@ class Selector(css_parser.util.Base2):
                 # S
                 context = new['context'][-1]
                 if context.startswith('pseudo-'):
-                    if seq and seq[-1].value not in '+-':
+                    if seq and seq[-1].value not in ('+', '-'):
                         # e.g. x:func(a + b)
                         append(seq, S, 'S', token=token)
                     return expected
